@@ -1063,6 +1063,16 @@ def oracle_for(prop, c, obs):
             if out == "ok" and ((o[0] == "load" and o[2]) or (o[0] == "validate" and not o[1]) or o[0] == "loads"):
                 tf = node_at(fields, tsteps)
                 check_required(tf, get_cfg_snap(after, tsteps), st["tpath"] or "", bad, c["_built"].vt, c, tsteps)
+            if out == "ok" and o[0] == "set":
+                # a map assigned to a sub-configuration is a load of that sub-configuration; a list of maps assigned to a list
+                # of configurations loads every item: both are held to the rule
+                nd = dict(node_at(fields, tsteps)).get(o[1])
+                ta = get_cfg_snap(after, tsteps)
+                if nd is not None and nd["t"] == "sub" and isinstance(ta[0].get(o[1]), tuple):
+                    check_required(nd["fields"], ta[0][o[1]], pjoin(st["tpath"] or "", o[1]), bad, c["_built"].vt, c, tsteps)
+                if nd is not None and nd["t"] == "cfglist" and isinstance(ta[0].get(o[1]), Proxy):
+                    for i, it in enumerate(ta[0][o[1]].items):
+                        check_required(nd["fields"], it, "%s[%d]" % (pjoin(st["tpath"] or "", o[1]), i), bad, c["_built"].vt, c, tsteps)
             if out == "ok" and o[0] in ("append", "insert", "setidx"):
                 # "items of configuration lists are held to the same rule when they are loaded or inserted"
                 tb = get_cfg_snap(before, tsteps)
@@ -1176,6 +1186,8 @@ def check_required(fields, snap, path, bad, vt, c, tsteps):
         if nd["t"] == "leaf":
             if nd["required"] and (v is None or (nd["kind"][0] == "str" and v == "")):
                 bad.append("validation passed but required field %s is unset" % pjoin(path, k))
+            if nd.get("reject") is not None and k not in defaults and type(v) is type(nd["reject"]) and v == nd["reject"]:
+                bad.append("validation passed but the validator registered on field %s refuses its value %r" % (pjoin(path, k), v))
         elif nd["t"] == "sub":
             check_required(nd["fields"], v, pjoin(path, k), bad, vt, c, tsteps)
         else:
